@@ -1,11 +1,12 @@
 import SimVerif.Driver.Common
 import SimVerif.Model.Geom
+import SimVerif.Gen.Consts
 namespace SimVerif.Driver.GeomD
 open SimVerif.Wire SimVerif.Geom SimVerif.Driver
 
 abbrev P := Pt Rat
 
-def EPS : Rat := rat? "f3727c5ac" |>.getD (1/100000)   -- 0.00001f32
+def EPS : Rat := Gen.EPS   -- regenerated from src/lib.rs
 
 def parseU : List String → Option (UBox Rat × List String)
   | xc :: yc :: ang :: asp :: h :: ts => do
